@@ -2,7 +2,7 @@
 import os, json
 from common import *
 import scen
-from level_checks import classify_tv, seq_cfg, KF_WHAT
+from level_checks import classify_tv, seq_cfg, KF_WHAT, transformed
 
 KF_WHAT.update({"KF-C11-1": "the snapshot lists orders by timestamp, not by queue position: the restored level queues them in a different order",
                 "KF-C11-2": "the original level carried a stale ticket that the restored level does not have"})
@@ -113,7 +113,10 @@ def check_c10(prop, tier):
         n = 120 if tier == "quick" else 3000
         for i in range(n):
             calls = scen.seq_history(rng, rng.range(8, 30), nids=rng.choice([3, 6]), monotone_ts=(i % 2 == 0), zero_ok=(i % 3 != 0), vary_px=(i % 4 == 1))
-            hs.append(scen.seq_scenario(with_restores(calls, rng, False)))
+            sc = scen.seq_scenario(with_restores(calls, rng, False))
+            if i % 3 == 2:
+                sc = transformed(sc, i // 3, scale=False)       # timestamps beyond 2^53 / at the 64-bit limit, ULID ids
+            hs.append(sc)
         h = run_harness("level", hs, work, "tv", timeout=3000)
         s = tv(h["trace"], "MCTraceSeq", "TraceSeq", work, timeout=6000)
         res.add(traces_validated_against_impl=s["execs"], restores_checked=s["restores"], calls_validated=s["calls"], tv_drifts=len(s["drifts"]),
@@ -148,7 +151,10 @@ def check_c11(prop, tier):
         for i in range(n):
             build = scen.seq_history(rng, rng.range(4, 18), nids=rng.choice([3, 5]), monotone_ts=(i % 2 == 0), zero_ok=(i % 2 == 1), reads=False, vary_px=(i % 4 == 0))
             cont = scen.seq_history(rng, rng.range(3, 14), nids=5, monotone_ts=True, zero_ok=False, reads=(i % 3 == 0))
-            hs.append(scen.seq_scenario(build + [{"op": "fork", "via": rng.choice(PATHS)}] + cont, budget=6000))
+            sc = scen.seq_scenario(build + [{"op": "fork", "via": rng.choice(PATHS)}] + cont, budget=6000)
+            if i % 3 == 2:
+                sc = transformed(sc, i // 3, scale=False)
+            hs.append(sc)
         h = run_harness("level", hs, work, "tv", timeout=3000)
         s = tv(h["trace"], "MCTraceSeq", "TraceSeq", work, timeout=6000)
         res.add(traces_validated_against_impl=s["execs"], lockstep_calls=s["lockstep"], lockstep_differences=s["lockdiff"], tv_drifts=len(s["drifts"]))
